@@ -7,6 +7,7 @@ by the environment variable VT_MUT=<k>, so "the command subsequently behaves dif
 pure change of the command, never of the test.
 """
 import datetime
+import os
 import shlex
 
 WORDS = ['alpha', 'beta', 'total', 'rows', 'ok', 'done', 'Ünï', '日本', 'warning:', 'items', 'rate']
@@ -59,8 +60,22 @@ def gen_command(rng, tokens, i=0):
     names = file_names(rng, nfiles)
     for k, name in enumerate(names):
         text = name.rsplit('.', 1)[-1] in TEXT_EXTS or '.' not in name
-        if text:
+        if text and rng.random() < 0.12:
+            # a text file that is not UTF-8: Latin-1 / Windows-1252 / UTF-16 text under a name that says "text"
+            sample = rng.choice(['café au lait', 'naïve façade — déjà vu', 'Ünïcödé', 'plain ascii then é', 'ÿ'])
+            enc = rng.choice(['latin-1', 'latin-1', 'cp1252', 'utf-16'])
+            body = '\n'.join([sample] * rng.choice([1, 2, 6])) + '\n'
+            spec['files'].append({'name': name, 'kind': 'binary', 'hex': body.encode(enc, 'replace').hex(), 'encoded_text': enc})
+        elif text:
             spec['files'].append({'name': name, 'kind': 'text', 'lines': lines(rng.choice([1, 2, 5]))})
+        elif rng.random() < 0.08:
+            # a LARGE nearly-text file (past any block size a reader might use): a unit of UTF-8 text repeated to just over
+            # 1 MiB / 64 KiB / 8 KiB, ending part-way through a multi-byte character
+            unit = ('données €uro 日本語 naïve ' * 40)[:1000].encode('utf-8')[:1020] + b'\n'
+            unit = unit.decode('utf-8', 'ignore').encode('utf-8')
+            total = rng.choice([1 << 20, 1 << 20, 1 << 16, 1 << 13])        # counted in CHARACTERS as well as in bytes
+            nchars = len(unit.decode('utf-8'))
+            spec['files'].append({'name': name, 'kind': 'binary', 'hex': 'e282', 'unit_hex': unit.hex(), 'repeat': total // nchars + 2})
         else:
             spec['files'].append({'name': name, 'kind': 'binary', 'hex': binary_content(rng).hex()})
     return spec
@@ -94,13 +109,29 @@ NAME_FAMILIES = [
     ['out1.log', 'OUT1.log', 'out1.LOG'],                    # differ in case only
     ['README', 'data/README', 'out.tar.dat'],
     ['../work.log', '../work-extra.txt', 'out0.txt'],        # beside the working directory ("work"), sharing its prefix
+    ['TMPDIR/tmpout.txt', 'out0.txt', 'TMPDIR/scratch.dat'],  # written under $TMPDIR (gentest watches its own $TMPDIR)
+    ['TMPDIR/only.log'],
 ]
+TMP_PREFIX = 'TMPDIR/'
+
+
+def sh_path(name):
+    """The file name as the sh script writes it."""
+    if name.startswith(TMP_PREFIX):
+        return '"$TMPDIR"/' + shlex.quote(name[len(TMP_PREFIX):])
+    return shlex.quote(name)
+
+
+def real_path(name, workdir, tmpdir):
+    if name.startswith(TMP_PREFIX):
+        return os.path.join(tmpdir, name[len(TMP_PREFIX):])
+    return os.path.join(workdir, name)
 
 
 def file_names(rng, n):
     if n == 0:
         return []
-    if n >= 2 and rng.random() < 0.35:
+    if (n >= 2 and rng.random() < 0.35) or rng.random() < 0.06:
         fam = rng.choice(NAME_FAMILIES)
         return rng.sample(fam, min(n, len(fam)))
     out = []
@@ -126,13 +157,14 @@ def mutations(spec):
     k = 0
     for stream in ('stdout', 'stderr'):
         n = len(spec[stream])
-        for how in ('alter', 'add', 'remove'):
+        for how in ('alter', 'add', 'remove') + (('alter_token',) if spec.get('machine') else ()):
             if how != 'add' and n == 0:
                 continue
             k += 1
             muts.append({'k': k, 'target': stream, 'how': how, 'line': (k * 7) % n if n else 0})
     for fi, f in enumerate(spec['files']):
-        for how in ('alter', 'add', 'missing') if f['kind'] == 'text' else ('alter', 'append', 'missing'):
+        for how in (('alter', 'add', 'missing') + (('alter_token',) if spec.get('machine') else ())) if f['kind'] == 'text' \
+                else ('alter', 'append', 'missing'):
             k += 1
             n = len(f['lines']) if f['kind'] == 'text' else len(bytes.fromhex(f['hex']))
             muts.append({'k': k, 'target': 'file', 'file': fi, 'name': f['name'], 'how': how, 'line': (k * 5) % n if n else 0})
@@ -150,6 +182,9 @@ def mutated(spec, mut):
         ls = s[t]
         if mut['how'] == 'alter':
             ls[mut['line']] = ls[mut['line']] + ' CHANGED'
+        elif mut['how'] == 'alter_token':
+            # the NEW text mentions something machine-specific (the working directory) that the old line did not
+            ls[mut['line']] = 'now in ' + s['machine']['cwd']
         elif mut['how'] == 'add':
             ls.insert(mut['line'], 'an extra line')
         else:
@@ -161,6 +196,8 @@ def mutated(spec, mut):
         elif f['kind'] == 'text':
             if mut['how'] == 'alter':
                 f['lines'][mut['line']] = f['lines'][mut['line']] + ' CHANGED'
+            elif mut['how'] == 'alter_token':
+                f['lines'][mut['line']] = 'now in ' + s['machine']['cwd']
             else:
                 f['lines'].insert(mut['line'], 'an extra line')
         else:
@@ -177,16 +214,20 @@ def mutated(spec, mut):
 
 def _body(spec):
     out = [_printf_text(spec['stdout']), _printf_text(spec['stderr']) + ' >&2']
-    dirs = sorted(set(f['name'].rsplit('/', 1)[0] for f in spec['files'] if '/' in f['name']))
+    dirs = sorted(set(f['name'].rsplit('/', 1)[0] for f in spec['files'] if '/' in f['name'] and not f['name'].startswith(TMP_PREFIX)))
     if dirs:
         out.append('mkdir -p ' + ' '.join(shlex.quote(d) for d in dirs))
     for f in spec['files']:
         if f.get('missing'):
             out.append(': # (this run does not produce %s)' % f['name'].replace("'", ''))
         elif f['kind'] == 'text':
-            out.append(_printf_text(f['lines']) + ' > ' + shlex.quote(f['name']))
+            out.append(_printf_text(f['lines']) + ' > ' + sh_path(f['name']))
+        elif f.get('repeat'):
+            out.append('i=0; : > %s; while [ $i -lt %d ]; do %s; i=$((i+1)); done >> %s' % (
+                sh_path(f['name']), f['repeat'], _printf_bin(bytes.fromhex(f['unit_hex'])), sh_path(f['name'])))
+            out.append(_printf_bin(bytes.fromhex(f['hex'])) + ' >> ' + sh_path(f['name']))
         else:
-            out.append(_printf_bin(bytes.fromhex(f['hex'])) + ' > ' + shlex.quote(f['name']))
+            out.append(_printf_bin(bytes.fromhex(f['hex'])) + ' > ' + sh_path(f['name']))
     out.append('exit %d' % spec['status'])
     return out
 
